@@ -43,8 +43,9 @@ LEAN = dict(
               "children_transitive", "direct_dependency_reported", "children_after_ancestors_before",
               "first_is_root_last_is_leaf", "children_ancestors_unique",
               "collection_keys_unique", "collection_refused_name_no_effect", "collection_definitions_never_rewritten",
-              "collection_sum_exact", "collection_registers_ind", "collection_ind_chain", "collection_later_ind_var_counted"],
-    trusted_extra=["python string ordering of node names = rank used by the model (names are ranked by the harness with python's sorted())"],
+              "collection_sum_exact", "collection_registers_ind", "collection_ind_chain", "collection_later_ind_var_counted", "collection_graph_ind_feeds_sum"],
+    trusted_extra=["python string ordering of node names = rank used by the model (graph cases: names are ranked by the harness with python's sorted(); "
+                   "collection cases: names are ranked inside the model, Specs.rankedNames, and the resulting order is compared by name)"],
     assumptions=["direct ancestors are sets (frozenset in the code): the harness sends de-duplicated ancestor lists"],
 )
 
